@@ -310,8 +310,8 @@ def known_cases(ctx):
               "known": "MultiBW", "documented_value": str(1 / (0.81 - m * m - 1j * 0.9 * 0.1))})]
 
 
-def cases(ctx, rnd, quick, include_multibw=True):
-    """correspondence cases for BWR_LS2 and MultiBWR (and MultiBW tied to what the code does: = MultiBWR)"""
+def cases(ctx, rnd, quick):
+    """correspondence cases for BWR_LS2 and MultiBWR; the open MultiBW finding is separate: known_cases(ctx)"""
     import bootstrap
     bootstrap.tf_quiet()
     n = 6 if quick else 40
